@@ -3,6 +3,7 @@ package main
 import (
 	"go/token"
 	"go/types"
+	"regexp"
 
 	"golang.org/x/tools/go/ssa"
 )
@@ -75,87 +76,66 @@ func checkC15(c *Ctx) {
 	mp := "." + fMap
 	ch := mp + "[*]"
 
-	// ---- GUARD: Bind
+	// ---- GUARD (statements; checks packaged in predicates of the package are looked through)
 	c.Rule("C15.guard", "GUARD: Bind returns nil only after Known(id) (ok edge of the lookup of the id in the challenge map) and NotComputed(id); ComputeChallenge returns nil error only after Known(id) and, for a non-first not-yet-computed challenge, previous != nil and previous.position == position-1", 2)
-	{
-		recv, id := bind.Params[0], bind.Params[1]
-		RunGuard(c, p, GuardSpec{Rule: "C15.guard", Fn: bind, Accept: AcceptNilErr, Facts: []Fact{
-			BoolValFact("Known(id)", true, func(v ssa.Value) bool { return isLookupOk(v, recv, mp, id) }),
-			BoolValFact("NotComputed(id)", false, fromP(recv, ch+"."+fComp)),
-		}})
-	}
-	{
-		recv, id := cc.Params[0], cc.Params[1]
-		RunGuard(c, p, GuardSpec{Rule: "C15.guard", Fn: cc, Accept: AcceptNilErr, Facts: []Fact{
-			BoolValFact("Known(id)", true, func(v ssa.Value) bool { return isLookupOk(v, recv, mp, id) }),
-		}})
-		assume := []Fact{
-			BoolValFact("computed", true, fromP(recv, ch+"."+fComp)),
-			CmpFact("first", func(x, y ssa.Value) (token.Token, bool) {
-				if k, ok := constInt(y); ok && k == 0 && derivedFrom(x, recv, ch+"."+fPos) {
-					return token.EQL, true
-				}
-				return 0, false
-			}),
-		}
-		RunGuard(c, p, GuardSpec{Rule: "C15.guard", Fn: cc, Accept: AcceptNilErr, Assume: assume, Facts: []Fact{
-			NilFact("PreviousComputed(previous != nil)", false, fromP(recv, "."+fPrev)),
-			CmpFact("PreviousIsPredecessor(previous.position == position-1)", func(x, y ssa.Value) (token.Token, bool) {
-				if !derivedFrom(x, recv, "."+fPrev+"."+fPos) {
-					return 0, false
-				}
-				if b, ok := y.(*ssa.BinOp); ok && b.Op == token.SUB && derivedFrom(b.X, recv, ch+"."+fPos) {
-					if k, ok := constInt(b.Y); ok && k == 1 {
-						return token.EQL, true
-					}
-				}
-				return 0, false
-			}),
-		}})
-	}
+	q := regexp.QuoteMeta
+	// the challenge being processed: the local copy of the map entry, or the entry itself
+	cur := `(?:local:\w+|pr\.` + q(fMap) + `\[\*\])`
+	known := Req{"Known(id)", `^has\(pr\.` + q(fMap) + `,p0\)$`}
+	RequireFacts(c, p, "C15.guard", bind, AcceptNilErr, nil, []Req{
+		known,
+		{"NotComputed(id)", `^!` + cur + `\.` + q(fComp) + `$`},
+	})
+	RequireFacts(c, p, "C15.guard", cc, AcceptNilErr, nil, []Req{known})
+	RequireFacts(c, p, "C15.guard", cc, AcceptNilErr,
+		[]string{`^` + cur + `\.` + q(fComp) + `$`, `^0 == ` + cur + `\.` + q(fPos) + `$`, `^` + cur + `\.` + q(fPos) + ` <= 0$`},
+		[]Req{
+			{"PreviousComputed(previous != nil)", `^pr\.` + q(fPrev) + ` != nil$`},
+			{"PreviousIsPredecessor(previous.position == position-1)", `^\(` + cur + `\.` + q(fPos) + `-1\) == pr\.` + q(fPrev) + `\.` + q(fPos) + `$|^pr\.` + q(fPrev) + `\.` + q(fPos) + ` == \(` + cur + `\.` + q(fPos) + `-1\)$`},
+		})
+
+	vb, vc := NewIView(bind), NewIView(cc)
 
 	// ---- L11: refused calls leave the transcript unchanged
 	c.Rule("C15.L11", "L11: no write to the challenge map or the previous pointer can be followed by a return with a non-nil error (a refused call leaves the transcript unchanged); the hash object is scratch state reset before every use", 2)
-	for _, fn := range []*ssa.Function{bind, cc} {
+	for _, v := range []*IView{vb, vc} {
+		fn := v.root.fn
 		c.Instance("C15.L11", 1)
 		recv := fn.Params[0]
 		idx := resultIndex(fn, AcceptNilErr)
-		var writes []ssa.Instruction
-		for _, b := range fn.Blocks {
-			for _, in := range b.Instrs {
-				switch x := in.(type) {
-				case *ssa.MapUpdate:
-					if derivedFrom(x.Map, recv, mp) {
-						writes = append(writes, in)
-					}
-				case *ssa.Store:
-					if addrDerivedFrom(x.Addr, recv, "...") && !addrDerivedFrom(x.Addr, recv, "."+fHash+"...") {
-						writes = append(writes, in)
-					}
+		var writes []ivInstr
+		for _, x := range v.Instrs() {
+			switch in := x.in.(type) {
+			case *ssa.MapUpdate:
+				if v.DerivedFrom(in.Map, x.fr, recv, mp) {
+					writes = append(writes, x)
+				}
+			case *ssa.Store:
+				if v.AddrDerivedFrom(in.Addr, x.fr, recv, "...") && !v.AddrDerivedFrom(in.Addr, x.fr, recv, "."+fHash+"...") {
+					writes = append(writes, x)
 				}
 			}
 		}
 		ok := true
-		var bad ssa.Instruction
-		var badRet *ssa.Return
-		for _, b := range fn.Blocks {
-			ret, isRet := b.Instrs[len(b.Instrs)-1].(*ssa.Return)
-			if !isRet || b.Comment == "recover" {
+		var bad, badRet ivInstr
+		for _, r := range v.rootReturns() {
+			ret := r.in.(*ssa.Return)
+			if ret.Block().Comment == "recover" {
 				continue
 			}
-			if mayBeNilErr(retValue(ret, idx), b, 0) {
+			if mayBeNilErr(retValue(ret, idx), ret.Block(), 0) {
 				continue // accepting return
 			}
 			for _, w := range writes {
-				if instrMayPrecede(fn, w, ret) {
-					ok, bad, badRet = false, w, ret
+				if v.MayPrecede(w, r) {
+					ok, bad, badRet = false, w, r
 				}
 			}
 		}
 		msg, pos := "", p.Pos(fn.Pos())
 		if !ok {
-			pos = p.Pos(instrPos(bad))
-			msg = funcKey(fn) + ": transcript state is written at " + pos + " on a path that ends in the error return at " + p.Pos(instrPos(badRet))
+			pos = p.Pos(instrPos(bad.in))
+			msg = funcKey(fn) + ": transcript state is written at " + pos + " on a path that ends in the error return at " + p.Pos(instrPos(badRet.in))
 		}
 		c.Ob("C15.L11", pkg, funcKey(fn), "state-unchanged-on-error", pos, ok, msg)
 		// the state transition must happen on success of the computing path
@@ -175,67 +155,99 @@ func checkC15(c *Ctx) {
 		checkNoRetainedParamSlices(c, p, "C15.L10", fn)
 		checkReturnedSlicesFresh(c, p, "C15.L10", fn)
 	}
+	// ivFresh: a slice that shares storage with nothing else, looking through helpers of the package
+	var ivFresh func(v *IView, val ssa.Value, fr *ivFrame, d int) bool
+	ivFresh = func(v *IView, val ssa.Value, fr *ivFrame, d int) bool {
+		if d > 6 {
+			return false
+		}
+		val = stripConv(val)
+		if freshByteSlice(val) {
+			return true
+		}
+		if call, ok := val.(*ssa.Call); ok {
+			if kid := fr.kids[ssa.CallInstruction(call)]; kid != nil {
+				n := 0
+				for _, b := range kid.fn.Blocks {
+					if ret, ok := b.Instrs[len(b.Instrs)-1].(*ssa.Return); ok && len(ret.Results) > 0 {
+						n++
+						if !ivFresh(v, retValue(ret, 0), kid, d+1) {
+							return false
+						}
+					}
+				}
+				return n > 0
+			}
+		}
+		if ph, ok := val.(*ssa.Phi); ok {
+			for _, e := range ph.Edges {
+				if !ivFresh(v, e, fr, d+1) {
+					return false
+				}
+			}
+			return len(ph.Edges) > 0
+		}
+		return false
+	}
 	// stored challenge value is fresh (copy target is a make)
 	{
 		ok := true
 		pos := p.Pos(cc.Pos())
 		n := 0
-		for _, b := range cc.Blocks {
-			for _, in := range b.Instrs {
-				st, isSt := in.(*ssa.Store)
-				if !isSt {
-					continue
-				}
-				if _, isSlice := st.Val.Type().Underlying().(*types.Slice); !isSlice {
-					continue
-				}
-				if !challengeValueAddr(st.Addr, fVal) {
-					continue
-				}
-				n++
-				if !freshByteSlice(st.Val) {
-					ok = false
-					pos = p.Pos(instrPos(in))
-				}
+		for _, x := range vc.Instrs() {
+			st, isSt := x.in.(*ssa.Store)
+			if !isSt {
+				continue
+			}
+			if _, isSlice := st.Val.Type().Underlying().(*types.Slice); !isSlice {
+				continue
+			}
+			fa, isFA := st.Addr.(*ssa.FieldAddr)
+			if !isFA || fieldName(fa.X.Type(), fa.Field) != fVal {
+				continue
+			}
+			n++
+			if !ivFresh(vc, st.Val, x.fr, 0) {
+				ok = false
+				pos = p.Pos(instrPos(x.in))
 			}
 		}
 		c.Ob("C15.L10", pkg, funcKey(cc), "cached-value-fresh", pos, ok && n > 0, "the cached challenge value is not a freshly made slice (it would alias the returned digest or hash-internal storage)")
 	}
 
-	// ---- ORDER: what is hashed, in which order
-	c.Rule("C15.order", "ORDER: on the computing path Reset dominates the first Write; Write(id) dominates Write(previous.value) and the bindings loop; Write(previous.value) lies on the position != 0 arm and cannot follow the bindings loop; the bindings are written by an ascending index loop over the binding slice; Sum is dominated by Write(id), follows the loop, and its result is what is returned and copied into the cache", 1)
+	// ---- ORDER: what is hashed, in which order (on the inlined view of ComputeChallenge)
+	c.Rule("C15.order", "ORDER: on the computing path Reset dominates the first Write; Write(id) dominates Write(previous.value) and the bindings loop; Write(previous.value) lies on the position != 0 arm and cannot follow the bindings loop; the bindings are written by an ascending index loop over the binding slice; Sum is dominated by Write(id), follows the loop, and its result is what is returned and copied into the cache — decided on the inlined view of ComputeChallenge (helpers of the package expanded at their call sites)", 1)
 	c.Instance("C15.order", 1)
 	{
 		fn := cc
+		v := vc
 		recv, id := fn.Params[0], fn.Params[1]
-		var reset, sum ssa.Instruction
-		var wID, wPrev, wBind *ssa.Call
+		var reset, sum, wID, wPrev, wBind *ivInstr
 		var otherWrites int
-		for _, b := range fn.Blocks {
-			for _, in := range b.Instrs {
-				call, ok := in.(*ssa.Call)
-				if !ok || !call.Call.IsInvoke() || !derivedFrom(call.Call.Value, recv, "."+fHash) {
-					continue
+		for _, x := range v.Instrs() {
+			x := x
+			call, ok := x.in.(*ssa.Call)
+			if !ok || !call.Call.IsInvoke() || !v.DerivedFrom(call.Call.Value, x.fr, recv, "."+fHash) {
+				continue
+			}
+			switch call.Call.Method.Name() {
+			case "Reset":
+				if reset == nil {
+					reset = &x
 				}
-				switch call.Call.Method.Name() {
-				case "Reset":
-					if reset == nil {
-						reset = in
-					}
-				case "Sum":
-					sum = in
-				case "Write":
-					a := call.Call.Args[0]
-					switch {
-					case derivedFrom(a, id, ""):
-						wID = call
-					case derivedFrom(a, recv, "."+fPrev+"."+fVal):
-						wPrev = call
-					case derivedFrom(a, recv, ch+"."+fBind+"[*]"):
-						wBind = call
-					default:
-						otherWrites++
-					}
+			case "Sum":
+				sum = &x
+			case "Write":
+				a := call.Call.Args[0]
+				switch {
+				case v.DerivedFrom(a, x.fr, id, ""):
+					wID = &x
+				case v.DerivedFrom(a, x.fr, recv, "."+fPrev+"."+fVal):
+					wPrev = &x
+				case v.DerivedFrom(a, x.fr, recv, ch+"."+fBind+"[*]"):
+					wBind = &x
+				default:
+					otherWrites++
 				}
 			}
 		}
@@ -246,71 +258,85 @@ func checkC15(c *Ctx) {
 			"one of Reset / Write(id) / Write(previous.value) / Write(binding) / Sum on the transcript hash is missing")
 		need("no-other-input", otherWrites == 0, "the hash receives an input other than id, previous value, bindings")
 		if reset != nil && sum != nil && wID != nil && wPrev != nil && wBind != nil {
-			need("reset-first", instrDominates(reset, wID), "Reset does not dominate the first Write")
-			need("id-first", instrDominates(wID, wPrev) && instrDominates(wID, wBind) && instrDominates(wID, sum), "Write(id) does not dominate the other hash inputs")
-			need("previous-before-bindings", instrMayPrecede(fn, wPrev, wBind) && !instrMayPrecede(fn, wBind, wPrev), "Write(previous.value) can follow a binding write or never precedes them")
-			need("bindings-before-sum", instrMayPrecede(fn, wBind, sum) && !instrMayPrecede(fn, sum, wBind) && !instrMayPrecede(fn, sum, wPrev) && !instrMayPrecede(fn, sum, wID), "Sum can be followed by a Write")
+			need("reset-first", v.Dominates(*reset, *wID), "Reset does not dominate the first Write")
+			need("id-first", v.Dominates(*wID, *wPrev) && v.Dominates(*wID, *wBind) && v.Dominates(*wID, *sum), "Write(id) does not dominate the other hash inputs")
+			need("previous-before-bindings", v.MayPrecede(*wPrev, *wBind) && !v.MayPrecede(*wBind, *wPrev), "Write(previous.value) can follow a binding write or never precedes them")
+			need("bindings-before-sum", v.MayPrecede(*wBind, *sum) && !v.MayPrecede(*sum, *wBind) && !v.MayPrecede(*sum, *wPrev) && !v.MayPrecede(*sum, *wID), "Sum can be followed by a Write")
 			// the previous value is written exactly when position != 0
 			prevGuard := false
-			for d := wPrev.Block(); d != nil; d = d.Idom() {
-				id := d.Idom()
-				if id == nil {
-					break
-				}
-				if iff, ok := id.Instrs[len(id.Instrs)-1].(*ssa.If); ok {
-					a := atomOf(iff.Cond)
-					if a.Kind == "cmp" && derivedFrom(a.X, recv, ch+"."+fPos) {
-						if k, ok := constInt(a.Y); ok && k == 0 && (a.Op == token.NEQ || a.Op == token.EQL || a.Op == token.GTR) {
-							prevGuard = true
-						}
+			for _, cd := range v.DominatingConds(*wPrev) {
+				a := cd.atom
+				if a.Kind == "cmp" && v.DerivedFrom(a.X, cd.fr, recv, ch+"."+fPos) {
+					if k, ok := constInt(a.Y); ok && k == 0 && (a.Op == token.NEQ || a.Op == token.EQL || a.Op == token.GTR) {
+						prevGuard = true
 					}
 				}
 			}
 			need("previous-iff-not-first", prevGuard, "Write(previous.value) is not controlled by the test position != 0")
 			// ascending loop over all bindings
 			asc := false
-			if ia, ok := rootIndexAddr(wBind.Call.Args[0]); ok {
+			if ia, ok := rootIndexAddr(wBind.in.(*ssa.Call).Call.Args[0]); ok {
 				asc = ascendingFullRange(ia)
 			}
 			need("bindings-in-order", asc, "the bindings are not written by an ascending, complete index loop over the binding slice")
 			// every write's error is checked
-			for name, w := range map[string]*ssa.Call{"write-id-checked": wID, "write-previous-checked": wPrev, "write-binding-checked": wBind} {
-				need(name, errResultTested(w), "error result of a hash Write is not tested")
+			for name, w := range map[string]*ivInstr{"write-id-checked": wID, "write-previous-checked": wPrev, "write-binding-checked": wBind} {
+				need(name, errResultTested(w.in.(*ssa.Call)), "error result of a hash Write is not tested")
 			}
 			// returned value and cached copy come from Sum
-			sumCall := sum.(*ssa.Call)
+			sumCall := sum.in.(*ssa.Call)
 			// "comes from Sum": the Sum result itself, a fresh slice that received a copy of it
-			// (copy(dst, x) / append(fresh, x...)), or a phi of such — a refactoring that returns
-			// the copy instead of the original keeps the verdict
-			var fromSum func(v ssa.Value, d int) bool
-			fromSum = func(v ssa.Value, d int) bool {
-				if d > 6 || v == nil {
+			// (copy(dst, x) / append(fresh, x...)), a phi of such, or the same through a helper of the
+			// package — a refactoring that returns the copy instead of the original keeps the verdict
+			var fromSum func(val ssa.Value, fr *ivFrame, d int) bool
+			fromSum = func(val ssa.Value, fr *ivFrame, d int) bool {
+				if d > 8 || val == nil {
 					return false
 				}
-				v = stripConv(v)
-				if v == ssa.Value(sumCall) {
+				val = stripConv(val)
+				if val == ssa.Value(sumCall) {
 					return true
 				}
-				switch x := v.(type) {
+				switch x := val.(type) {
+				case *ssa.Parameter:
+					if fr.parent != nil {
+						for i, q := range fr.fn.Params {
+							if q == x && i < len(fr.site.Common().Args) {
+								return fromSum(fr.site.Common().Args[i], fr.parent, d+1)
+							}
+						}
+					}
 				case *ssa.Phi:
 					for _, e := range x.Edges {
-						if !fromSum(e, d+1) {
+						if !fromSum(e, fr, d+1) {
 							return false
 						}
 					}
 					return len(x.Edges) > 0
 				case *ssa.Slice:
-					return fromSum(x.X, d+1)
+					return fromSum(x.X, fr, d+1)
 				case *ssa.Call:
 					if bi, ok := x.Call.Value.(*ssa.Builtin); ok && bi.Name() == "append" && len(x.Call.Args) == 2 {
-						return fromSum(x.Call.Args[1], d+1)
+						return fromSum(x.Call.Args[1], fr, d+1)
+					}
+					if kid := fr.kids[ssa.CallInstruction(x)]; kid != nil {
+						n := 0
+						for _, b := range kid.fn.Blocks {
+							if ret, ok := b.Instrs[len(b.Instrs)-1].(*ssa.Return); ok && len(ret.Results) > 0 {
+								n++
+								if !fromSum(retValue(ret, 0), kid, d+1) {
+									return false
+								}
+							}
+						}
+						return n > 0
 					}
 				case *ssa.MakeSlice:
 					// a fresh buffer filled by copy(buf, <from Sum>)
 					if x.Referrers() != nil {
 						for _, r := range *x.Referrers() {
 							if cc, ok := r.(*ssa.Call); ok {
-								if bi, ok := cc.Call.Value.(*ssa.Builtin); ok && bi.Name() == "copy" && stripConv(cc.Call.Args[0]) == ssa.Value(x) && fromSum(cc.Call.Args[1], d+1) {
+								if bi, ok := cc.Call.Value.(*ssa.Builtin); ok && bi.Name() == "copy" && stripConv(cc.Call.Args[0]) == ssa.Value(x) && fromSum(cc.Call.Args[1], fr, d+1) {
 									return true
 								}
 							}
@@ -321,20 +347,18 @@ func checkC15(c *Ctx) {
 			}
 			retOK, copyOK := false, false
 			for _, a := range mustAccept(fn) {
-				if fromSum(retValue(a.ret, 0), 0) {
+				if fromSum(retValue(a.ret, 0), v.root, 0) {
 					retOK = true
 				}
 			}
-			for _, b := range fn.Blocks {
-				for _, in := range b.Instrs {
-					if call, ok := in.(*ssa.Call); ok {
-						if bi, ok := call.Call.Value.(*ssa.Builtin); ok && bi.Name() == "copy" && fromSum(call.Call.Args[1], 0) && derivedFrom(call.Call.Args[0], recv, ch+"."+fVal) {
-							copyOK = true
-						}
+			for _, x := range v.Instrs() {
+				if call, ok := x.in.(*ssa.Call); ok {
+					if bi, ok := call.Call.Value.(*ssa.Builtin); ok && bi.Name() == "copy" && fromSum(call.Call.Args[1], x.fr, 0) && v.DerivedFrom(call.Call.Args[0], x.fr, recv, ch+"."+fVal) {
+						copyOK = true
 					}
-					if st, ok := in.(*ssa.Store); ok && derivedFrom(st.Addr, recv, ch+"."+fVal) && fromSum(st.Val, 0) && stripConv(st.Val) != ssa.Value(sumCall) {
-						copyOK = true // value = append([]byte(nil), res...) / a filled fresh buffer
-					}
+				}
+				if st, ok := x.in.(*ssa.Store); ok && v.DerivedFrom(st.Addr, x.fr, recv, ch+"."+fVal) && fromSum(st.Val, x.fr, 0) && stripConv(st.Val) != ssa.Value(sumCall) {
+					copyOK = true // value = append([]byte(nil), res...) / a filled fresh buffer / cloneBytes(res)
 				}
 			}
 			need("digest-returned", retOK, "the computing path does not return the Sum result")
